@@ -137,7 +137,17 @@ func (w *Worker) Exec(bin string, s *Spec, timeout time.Duration) (*Result, erro
 	// One environment for every run that is ever compared with another (the
 	// property speaks of the same file, flags and directory; it does not promise
 	// independence from $HOME or $USER, so those are held constant, not varied).
-	env := []string{"PATH=/usr/bin:/bin", "HOME=/nonexistent/home", "GOPATH=/nonexistent/gopath", "GOROOT=/nonexistent", "LANG=C", "USER=sim", "TZ=UTC", "TMPDIR=" + filepath.Join(w.Dir, "tmp")}
+	// HOME and TMPDIR are real, writable, private to the worker, emptied before a
+	// fresh run and kept for a re-run in the same directory (state a tool leaves
+	// there is part of "running it twice").  Their paths differ between workers, so
+	// the checks run every run of one configuration on one worker.
+	env := []string{"PATH=/usr/bin:/bin", "HOME=" + filepath.Join(w.Dir, "home"), "GOPATH=/nonexistent/gopath", "GOROOT=/nonexistent", "LANG=C", "USER=sim", "TZ=UTC",
+		"TMPDIR=" + filepath.Join(w.Dir, "tmp"), "XDG_CACHE_HOME=" + filepath.Join(w.Dir, "home", ".cache")}
+	if s.Pre != "keep" {
+		os.RemoveAll(filepath.Join(w.Dir, "home"))
+		os.RemoveAll(filepath.Join(w.Dir, "tmp"))
+	}
+	os.MkdirAll(filepath.Join(w.Dir, "home"), 0o755)
 	os.MkdirAll(filepath.Join(w.Dir, "tmp"), 0o755)
 	if s.GOMAXPROCS > 0 {
 		env = append(env, "GOMAXPROCS="+strconv.Itoa(s.GOMAXPROCS))
